@@ -1,0 +1,45 @@
+//go:build verif
+
+// Contracts for govc (see /verif/DESIGN.md). Comment-only: no executable code with or without the tag.
+
+package dns
+
+//@ import binary "encoding/binary"
+//@ import io "io"
+
+// A Name that NewName accepted has labels of 1..63 bytes (the validity invariant of the type: every Name the
+// registrar encodes comes from NewName / ParseName / the parser, which ends in NewName).
+//@ define validName(n Name) bool = (forall i int :: 0 <= i && i < len(n) ==> 1 <= len(n[i]) && len(n[i]) <= 63)
+
+// the reversible, escaped text of a name (Name.String): the key of the compression cache
+//@ ghost func nameText(n Name) string
+//@ func (name Name) String() string
+//@   ensures @DET: result == nameText(name)
+//@   assigns nothing
+//@   trusted
+//@ func binary.Write(w io.Writer, order binary.ByteOrder, data any) error
+//@   assigns obj(w), bufStr
+
+// C15 "name packing": a compression pointer may only point at a place where exactly this name suffix was written
+// before. The cache that decides this is keyed by the reversible text of the suffix and by nothing else: the
+// closed list of callees below leaves no other way to compute a key (a key built by joining labels with '.' is
+// ambiguous for labels that contain a dot), and the pointer written is the cached offset of that very text.
+// C11: the label-length panic is unreachable for valid names ("checks safety" makes the panic an obligation).
+//@ func (builder *messageBuilder) WriteName(name Name) error
+//@   requires builder != nil && builder.nameCache != nil && validName(name) && (len(name) == 0 || !sameobj(builder, name))
+//@   callsonly @C15: Name).String, binary.Write, Buffer).Len, Buffer).WriteByte, Buffer).Write
+//@   atcall binary.Write before: assert @C15: defined(hit) && hit == nameText(name[i:]) && hit in old(builder.nameCache) || hit in builder.nameCache
+//@   atcall Name).String#1 after: snap hit := res
+//@   ensures @C11: true
+//@   assigns obj(builder), mapof(builder.nameCache), bufStr
+//@   checks safety
+//@ loop 1:
+//@   invariant builder != nil && builder.nameCache != nil && builder.nameCache == old(builder.nameCache) && validName(name) && 0 <= iter && iter <= len(name) && (len(name) == 0 || !sameobj(builder, name))
+//@   modifies obj(builder), mapof(builder.nameCache), bufStr
+
+// NewName establishes the validity invariant (and rejects what cannot be represented with an error).
+//@ func NewName(labels [][]byte) (Name, error)
+//@   ensures @C15: result1 == nil ==> validName(result0) && len(result0) == len(labels)
+//@   ensures @C15: (exists i int :: 0 <= i && i < len(labels) && (len(labels[i]) == 0 || len(labels[i]) > 63)) ==> result1 != nil
+//@ loop 1:
+//@   invariant 0 <= iter && iter <= len(labels) && (forall j int :: 0 <= j && j < iter ==> 1 <= len(labels[j]) && len(labels[j]) <= 63)
